@@ -379,19 +379,19 @@ def run_harnesses(chk, crate, specs, logdir=None):
 
 # concrete playback: re-run a failing harness natively with the solver's values --------------
 
-def playback(crate, harness, timeout=600, trace_cfg=True):
+def playback(crate, harness, timeout=1500, trace_cfg=True):
     """Ask Kani for the concrete counterexample of `harness`, insert it as a unit test and run it natively.
     returns dict(reproduced=bool, trace={k: v}, panic=str, test_src=str, log=str)"""
     res = dict(reproduced=False, trace={}, panic="", test_src="", log="")
     cmd = ["cargo", "kani", "-Z", "stubbing", "-Z", "concrete-playback", "--concrete-playback=print",
            "--target-dir", crate.target, "--harness", harness, "--exact"]
-    rc, out, secs, to = sh(cmd, cwd=crate.dir, timeout=timeout, env=crate.env(), mem_gb=14)
+    rc, out, secs, to = sh(cmd, cwd=crate.dir, timeout=timeout, env=crate.env(), mem_gb=30)
     res["log"] = out[-4000:]
     tests = re.findall(r"```\n((?:/// Test generated for harness|#\[test\]).*?)```", out, re.S)
     # one test per failed check and per satisfied cover: replay the failed checks only
     tests = [t for t in tests if "Check for `cover`" not in t] or []
     if not tests:
-        res["panic"] = "no concrete playback test produced"
+        res["panic"] = "no concrete playback test produced" + (" (playback run timed out after %ds)" % timeout if to else "")
         return res
     short = harness.split("::")[-1]
     target_file = None
